@@ -85,6 +85,14 @@ CLAIMS = {
         note="PARTIAL: the model is at ticket level; micro_queue internals (pages, masks, per-lane counters, invalid entries, throwing constructors) and the bounded queue's monitors are explored, not modelled; "
              "try_pop-empty truthfulness is checked by the linearizability oracle only. KNOWN-FINDING bqueue-abort-ticket-reuse is printed on every run.",
         ref="4/C09, 8(c)"),
+    "C20": dict(
+        technique="Coq proof: exact characterisation of the reachable configurations of the suspend/resume handshake (inductive invariant, all interleavings); real suspend/resume runs with racing resumers under an exactly-once oracle",
+        text="For every interleaving of the suspending thread's exchange(suspended)/self-resume with a resume() from anywhere (incl. the suspend callback itself): at most one resume task is pushed, "
+             "none before the suspending thread left the stack, exactly one at quiescence, and the handshake is never stuck (theorems). Real tasks suspend in arenas of 1-8 threads and are resumed from the "
+             "callback, a foreign thread with a racing delay, or another task; oracle: one continuation per suspension, no two threads on a stack, wait covers suspended tasks.",
+        note="PARTIAL: the model covers only the m_stack_state handshake and is not tied step by step to the code; stack switching, the resume task's route through the arena, owner recall and arena "
+             "lifetime are exercised by the oracle runs only.",
+        ref="4/C20"),
 }
 
 REASONS_TODO = "check not built yet in this round; the design (DESIGN.md section 4) applies and it is planned — listed here only because no check is registered"
